@@ -175,11 +175,11 @@ func init() {
 		Cases: func(tier string) int64 {
 			switch tier {
 			case "thorough":
-				return 1500000 + 125000 // + history cases
+				return 1500000 + 300000 // + history cases
 			case "race":
 				return 0
 			}
-			return 42000 + 3500 // + history cases
+			return 42000 + 10000 // + history cases
 		},
 		Run:           c06Run,
 		MinNontrivial: 300,
